@@ -44,13 +44,17 @@ EdgeBits(a, b, in, out) ==
     [] a = "hsl" /\ b = "hsv" -> HsvHslBits(out, in)
     [] a = "xyz" /\ b = "linluma" -> LumaFromXyzBits(in, out)
     [] a = "linluma" /\ b = "xyz" -> XyzFromLumaBits(in, out)
+    [] a = "xyz" /\ b = "lmsvk" -> MatBits(K.vk, in, out)
+    [] a = "lmsvk" /\ b = "xyz" -> MatBits(K.vkinv, in, out)
+    [] a = "xyz" /\ b = "lmsbfd" -> MatBits(K.bfd, in, out)
+    [] a = "lmsbfd" /\ b = "xyz" -> MatBits(K.bfdinv, in, out)
     [] OTHER -> 999
 
 (* thresholds: bits of agreement required.  Calibration on the pinned tree (DESIGN.md C02), worst case over
    lattice, threshold-straddling and random inputs: exact-formula edges 49..55 bits in f64 and 21..25 in f32;
    edges through palette's hard-coded 7-digit RGB matrices 23..24 (the publication itself is 7 digits);
    Oklab edges 22..24 (10-digit published matrices, two published M1).  Thresholds leave 4..5 bits (>= 16x). *)
-Published7(a, b) == {a, b} = {"linsrgb", "xyz"}
+Published7(a, b) == {a, b} = {"linsrgb", "xyz"} \/ (a \in {"lmsvk", "lmsbfd"} /\ b = "xyz")    \* 7-decimal inverses
 OkEdge(a, b) == "oklab" \in {a, b} /\ ({a, b} \cap {"xyz", "linsrgb"}) # {}
 Threshold(a, b, t) ==
   IF t = "f32" THEN (IF OkEdge(a, b) THEN 16 ELSE 17)
